@@ -144,13 +144,14 @@ pub fn oracle(c: &SeqCase, obs: &mut Obs, counted: bool) -> Verdict {
 }
 
 const ATOMS: &[&str] = &["a", "b", "/a", "/b", "/z", "\u{1}t", "a x='1'"];
+const ATOMS3: &[&str] = &["é", "期限", "/é", "/期限", "😀", "/😀", "\u{1}t", "é x='1'"];
 const ATOMS2: &[&str] = &["a", "b", "/a c='end of a'", "/b\n * ", "/a", "\u{1}t", " /b "];
 
 fn gen_long(t: &mut Tape) -> SeqCase {
     let pairs = [("<", ">"), ("<!-- <", "> -->"), ("[[", "]]"), ("「", "」")];
     let (ds, de) = *t.pick(&pairs);
     let n = 9 + t.below(40);
-    let names = ["a", "b", "c", "tl"];
+    let names = ["a", "b", "c", "tl", "é", "期限", "😀x", "a-é"];
     let mut pieces = vec![];
     for _ in 0..n {
         let nm = t.s(&names);
@@ -239,6 +240,8 @@ pub fn check(ctx: &mut Ctx) {
     // closing tags that carry attribute-like content (the comment attribute, the README's multi-line layout): they close all the same
     let l2 = ctx.tier.pick(7usize, 8usize);
     run_exhaustive(ctx, "closers-with-attributes", ATOMS2, l2);
+    // tag names that are not ASCII (lengths in bytes and in characters differ)
+    run_exhaustive(ctx, "non-ascii-names", ATOMS3, ctx.tier.pick(6usize, 7usize));
     ctx.random("long-sequences", 160, 600_000, 30_000_000, gen_long, |c, obs| oracle(c, obs, false));
     // many simultaneously open tags (never closed, stray closers, properly nested) in front of / around a well-formed pair:
     // the pair must still be recognised (up to the depth that known finding KF4 of C01 leaves: 2 400 here)
